@@ -75,6 +75,39 @@ def non_pointwise(t):
     return bad
 
 
+def state_vars_only(vars_):
+    txt = pt(vars_)
+    return ("state_variables(" in txt or "extra_state_variables(" in txt or "get_state_variable(" in txt) and "parameter_variables" not in txt and "all_extra" not in txt
+
+
+def handed_state_vars(prog, edges, ieng, f, vars_, depth=3):
+    """The quantified variables are handed to `f` by its callers (a helper that only performs the projection): with every local caller's
+    arguments in place of the parameters, the quantification must be over state / auxiliary variables.  Returns one (caller, site, ok)
+    per call of the helper, or None when the variables are not parameters of `f` / nothing calls it."""
+    if depth == 0 or not any(x[0] == "param" for x in [vars_] + list(subterms(vars_))):
+        return None
+    callers = [prog.fns[q] for q, outs in sorted(edges.items()) if f.qual in outs and q != f.qual]
+    pn = f.param_names()
+    out = []
+    for g in callers:
+        for x in ieng.summary(g).sites:
+            if x.kind not in ("call", "mcall") or not isinstance(x.callee, str) or len(x.args or ()) != len(pn):
+                continue
+            t = prog.resolve_local(g.crate, x.inst or x.callee) or prog.resolve_local(g.crate, x.callee)
+            if t is None or t.qual != f.qual:
+                continue
+            v = terms.subst(vars_, dict(zip(pn, x.args)))
+            if state_vars_only(v):
+                out.append((g, x, True, v))
+                continue
+            up = handed_state_vars(prog, edges, ieng, g, v, depth - 1)
+            if up:
+                out.extend(up)
+            else:
+                out.append((g, x, False, v))
+    return out or None
+
+
 def selftest(rep):
     """Positive examples for the zero-count rule: the classifier must flag these on every run."""
     mk = lambda callee: terms.Site(kind="mcall", callee=callee, name=last(callee), args=[])     # noqa: E731
@@ -102,6 +135,7 @@ def run(prog, rep):
         return
     eng = terms.Engine(prog, inline=False)
     edges = callgraph.build(prog, eng)
+    ieng = terms.Engine(prog, inline=True)
     reach = callgraph.reachable(prog, edges, [en.fn.qual], with_display=False)
     n_fn = 0
     for q in sorted(reach):
@@ -117,11 +151,13 @@ def run(prog, rep):
                               f"colour-mixing primitive `{st.short()}` in {f.path}, which is reachable from eval_node: the result for one colour can depend on which other colours exist")
             elif k == "quant":
                 vars_ = st.args[-1] if st.args else ()
-                txt = pt(vars_)
-                from_state = ("state_variables(" in txt or "extra_state_variables(" in txt) and "parameter_variables" not in txt and "all_extra" not in txt
-                rep.check(from_state, "C20-R1", f"{f.name}/{st.short()}@{st.ordinal}", st.where(),
-                          "quantified variables derive from state_variables() / extra_state_variables(..)",
-                          f"`{st.short()}` in {f.path} quantifies over {sem.short(vars_, 120)}: variables that are not shown to be state / auxiliary variables (parameter variables must never be quantified)")
+                handed = None if state_vars_only(vars_) else handed_state_vars(prog, edges, ieng, f, vars_)
+                for g, x, good, v in handed or [(f, st, state_vars_only(vars_), vars_)]:
+                    via = "" if g is f else f" (through {f.name})"
+                    rep.check(good, "C20-R1", f"{g.name}/{st.short()}@{x.ordinal if g is not f else st.ordinal}", x.where(),
+                              f"quantified variables derive from state_variables() / extra_state_variables(..){via}",
+                              f"`{st.short()}` in {f.path}{' called from ' + g.path if g is not f else ''} quantifies over {sem.short(v, 120)}: variables that are not shown "
+                              "to be state / auxiliary variables (parameter variables must never be quantified)")
             # R2
             if st.kind in ("call", "mcall", "op") and isinstance(st.callee, str):
                 l = last(st.callee)
